@@ -36,6 +36,9 @@ CONSTANTS Sizes,        \* set of <<Lx, Ly>>
           EnvShift,     \* 0 = pinned commit; 1 = environment stored under the next key (self-test, must fail)
           SkipLastBond, \* FALSE = pinned commit; TRUE = last bond of a line left uncompressed (self-test)
           DropInnerTag, \* TRUE = pinned commit; FALSE = inner site tag kept between layers (self-test)
+          Targets,      \* rectangles <<x0, x1, y0, y1>> for `around` (<<0, 0, 0, 0>> must be a member: used by the other tasks)
+          CrossedBound, \* FALSE = the code: every side is stopped by its own target bound; TRUE = the stop test of "ymax"
+                        \*         uses the target's largest row index (self-test, must fail)
           StoreByRef,   \* FALSE = current code: compute_environments stores copies (tn.select(..., virtual=False));
                         \* TRUE  = code before "fix: compute_environments stores copies of the boundary, not views"
                         \*         (former KF-C12-1): views are stored and the projector mode relabels them in place
@@ -183,11 +186,18 @@ Via1dInitial(ns, c, st) ==
 
 (* ----------------------------- the driver loops ------------------------ *)
 Sep(b, ax) == IF ax = "x" THEN b.xmax - b.xmin ELSE b.ymax - b.ymin
+\* target_check of _contract_interleaved_boundary_sequence: each side against its own bound of the target rectangle
 TargetOK(c, d, b) ==
   CASE d = "xmin" -> b.xmin >= c.target[1] - 1
-    [] d = "xmax" -> b.xmax <= c.target[1] + 1
-    [] d = "ymin" -> b.ymin >= c.target[2] - 1
-    [] d = "ymax" -> b.ymax <= c.target[2] + 1
+    [] d = "xmax" -> b.xmax <= c.target[2] + 1
+    [] d = "ymin" -> b.ymin >= c.target[3] - 1
+    [] d = "ymax" -> b.ymax <= (IF CrossedBound THEN c.target[2] ELSE c.target[4]) + 1
+\* the reference: the boundary of side d is next to (or was already inside) the region
+OwnReached(c, d, b) ==
+  CASE d = "xmin" -> b.xmin >= c.target[1] - 1
+    [] d = "xmax" -> b.xmax <= c.target[2] + 1
+    [] d = "ymin" -> b.ymin >= c.target[3] - 1
+    [] d = "ymax" -> b.ymax <= c.target[4] + 1
 Finished(c, d, b) == Sep(b, Axis(d)) <= c.msep \/ (c.task = "around" /\ TargetOK(c, d, b))
 Unfinished(c, b) == (IF Sep(b, "x") > c.msep THEN 1 ELSE 0) + (IF Sep(b, "y") > c.msep THEN 1 ELSE 0)
 
@@ -211,11 +221,11 @@ FirstLine(c, T) == \E x \in T.a : (IF Axis(c.seq[1]) = "x" THEN x[1] ELSE x[2]) 
 
 Configs ==
   {c \in [Lx : {s[1] : s \in Sizes}, Ly : {s[2] : s \in Sizes}, D : Ds, ly : Layerings, cap : Caps, mode : Modes,
-          seq : Seqs, msep : MaxSeps, task : Tasks, target : {<<0, 0>>, <<1, 1>>}] :
+          seq : Seqs, msep : MaxSeps, task : Tasks, target : Targets] :
      /\ <<c.Lx, c.Ly>> \in Sizes
      /\ (c.ly \in {"kb", "bk"} => c.mode \in {"late", "early", "via1d"})          \* layer_tags is an option of these modes
-     /\ (c.task = "around" => c.msep = 1 /\ c.target[1] < c.Lx /\ c.target[2] < c.Ly)
-     /\ (c.task # "around" => c.target = <<0, 0>>)
+     /\ (c.task = "around" => c.msep = 1 /\ c.target[2] < c.Lx /\ c.target[4] < c.Ly)
+     /\ (c.task # "around" => c.target = <<0, 0, 0, 0>>)
      /\ (c.task = "envs" => c.msep = 1 /\ Len(c.seq) = 1)
      /\ (c.msep = 0 => \A k \in DOMAIN c.seq : Axis(c.seq[k]) = Axis(c.seq[1]))}  \* closing sweeps along one axis
 
@@ -360,6 +370,15 @@ EnvIntact == cfg.cap >= need => stale = {}
 EnvConsistent == EnvCovers /\ EnvIntact
 
 SelectUnique == ~err
+
+\* `around`: the tensors of the target rectangle are never merged into anything ...
+TargetAtoms == {x \in AllAtoms : x[1] \in cfg.target[1]..cfg.target[2] /\ x[2] \in cfg.target[3]..cfg.target[4]}
+TargetUntouched == cfg.task = "around" => \A x \in TargetAtoms : \E T \in tens : T.a = {x}
+\* ... and when the scheme returns every side of the sequence has been contracted up to the region, unless the loop
+\* stopped because an axis got within max_separation (the max_unfinished rule applies with `around` too)
+AroundHugs == (cfg.task = "around" /\ pc = "done") =>
+                 \A k \in DOMAIN cfg.seq : OwnReached(cfg, cfg.seq[k], bnd) \/ Sep(bnd, "x") <= cfg.msep \/ Sep(bnd, "y") <= cfg.msep
+AroundOK == TargetUntouched /\ AroundHugs
 
 \* S->C: every explored case with its predicted step sequence and exact bond size
 Case == [Lx |-> cfg.Lx, Ly |-> cfg.Ly, D |-> cfg.D, ly |-> cfg.ly, mode |-> cfg.mode, seq |-> cfg.seq, msep |-> cfg.msep,
